@@ -280,7 +280,7 @@ def inplace_pass(ctx, np):
     from kingdon import MultiVector
     rng = ctx.rng
     nprng = np.random.RandomState(rng.randrange(2 ** 31))
-    for sig, gr in (([1, 1, 1], 1), ([0, 1, 1, 1], 2), ([1, 1, 1, 1], 2), ([1, -1, 1], 1)):
+    for sig, gr in (([1, 1, 1], 1), ([0, 1, 1, 1], 2), ([1, 1, 1, 1], 2), ([1, 1], 1)):
         alg = make_algebra(sig)
         ks = [k for k in alg.canon2bin.values() if grade(k) == gr]
         x = MultiVector.fromkeysvalues(alg, tuple(ks), nprng.random_sample((len(ks), 4)) + 0.5)
@@ -299,6 +299,9 @@ def inplace_pass(ctx, np):
                 ctx.count('inplace-raises:' + type(e).__name__)
                 break
             for nm, err in (('norm^2=normsq', e1), ('|normalized|^2=1', e2), ('norm=fresh norm', e3), ('outerexp=fresh outerexp', e4)):
+                if err != err:
+                    ctx.count('inplace-nan')        # a negative squared norm under numpy's real square root: nothing to compare
+                    continue
                 if not (err < 1e-8):
                     ctx.violation('stale-after-inplace', {**case, 'identity': nm}, 'error < 1e-8', float(err), key=f'inplace:{nm}')
             # overwrite one entry in place
